@@ -45,7 +45,7 @@ FnSet(dom, ch) == IF dom = {} THEN {<<>>}
 OutcChoices(gi, present) ==
   LET g == Cfg[gi]
       willStep == Active(g, present) # {}
-      refresh == willStep /\ Refresh(g, st[gi].step + 1)
+      refresh == willStep /\ RefreshF(g, st[gi].hy.freq, st[gi].step + 1)
       okRec(b) == [inf |-> FALSE, f |-> [k \in 1..g.nf[b] |-> "ok"]]
       kinds == {"ok"} \cup (FaultKinds \cap {"fail", "nan"})
   IN [b \in BlocksOf(g) |->
@@ -84,7 +84,7 @@ Step(present, outc) ==
 SetHyper(gi, key, v) ==
   /\ nCalls < MaxCalls /\ raised \notin {"value", "len"}
   /\ st[gi].hy[key] # v
-  /\ (key = "mom" /\ v > 0 => Cfg[gi].hasMom) /\ (key = "b1" /\ v > 0 => Cfg[gi].hasFilt)
+  /\ (key = "mom" /\ v > 0 => Cfg[gi].hasMom) /\ (key = "b1" /\ v > 0 => Cfg[gi].hasFilt) /\ (key = "freq" => v >= 1)
   /\ st' = [st EXCEPT ![gi].hy[key] = v]
   /\ raised' = "none" /\ nCalls' = nCalls + 1 /\ UNCHANGED <<bad, ckpt>>
   /\ hist' = IF Emit THEN Append(hist, [ev |-> "SetHyper", g |-> gi, key |-> key, v |-> v]) ELSE hist
@@ -94,7 +94,7 @@ SetHyper(gi, key, v) ==
 SetHyperAll(key, v) ==
   /\ nCalls < MaxCalls /\ raised \notin {"value", "len"}
   /\ \E gi \in Groups : st[gi].hy[key] # v
-  /\ \A gi \in Groups : (key = "mom" /\ v > 0 => Cfg[gi].hasMom) /\ (key = "b1" /\ v > 0 => Cfg[gi].hasFilt)
+  /\ \A gi \in Groups : (key = "mom" /\ v > 0 => Cfg[gi].hasMom) /\ (key = "b1" /\ v > 0 => Cfg[gi].hasFilt) /\ (key = "freq" => v >= 1)
   /\ st' = [gi \in Groups |-> [st[gi] EXCEPT !.hy[key] = v]]
   /\ raised' = "none" /\ nCalls' = nCalls + 1 /\ UNCHANGED <<bad, ckpt>>
   /\ hist' = IF Emit THEN hist \o [gi \in Groups |-> [ev |-> "SetHyper", g |-> gi, key |-> key, v |-> v]] ELSE hist
